@@ -344,6 +344,54 @@ theorem shutdown_once_after_drain (rt : Runtime) (cfg : Cfg) (script : List LAct
   have h2 := hR.T.t2 x hx t ht
   rw [← hcfg]; exact h2.1
 
+/-! ### the listeners are closed before the drain starts (the order of the exit path)
+
+`shutdown_once_after_drain` speaks about `s.conns`, the handlers alive at the put.  That this is *every* connection of
+the worker rests on the model closing the listeners in the same atomic action that sets `terminated` (`beginShutdown`):
+`gather(*server_tasks)` is a snapshot, a connection accepted while it is awaited would not be waited for.  The order is
+re-decided against the source on every run. -/
+
+/-- **the model's exit path is the source's**: the statements of the `finally:` block of asyncio `worker_serve` (and of the
+    `finally:` of the bounded wait inside it), in source order, are the model's - `terminated.set()`, the listeners closed,
+    THEN the bounded wait for the handlers, then `wait_for_shutdown()`, then the lifespan task cancelled and awaited; on
+    trio the listeners run in the nursery that has been cancelled and joined before the `finally:` that sets `terminated` -/
+theorem exit_path_order_is_source :
+    (Extracted.Guards.asyncioExitOrder = (exitOrder Runtime.asyncio).map ExitStmt.name ∨
+     -- (`terminated.set()` and the closing of the listeners are ONE atomic action of the model and neither suspends in the
+     --  source: which of the two statements stands first is immaterial)
+     Extracted.Guards.asyncioExitOrder =
+       [ExitStmt.closeListeners.name, ExitStmt.setTerminated.name] ++ ((exitOrder Runtime.asyncio).drop 2).map ExitStmt.name) ∧
+    Extracted.Guards.trioListenersStopBeforeTerminated = true := by
+  constructor
+  · decide
+  · rfl
+
+/-- **no connection joins the drain**: once `terminated` is set the listeners are closed, no `connect` is enabled (of
+    any kind of connection), and no connection has been accepted since; so the handlers `lifespan.shutdown` waits for
+    (`shutdown_once_after_drain`: none is alive at the put) are all the connections there are -/
+theorem listeners_closed_before_drain (rt : Runtime) (cfg : Cfg) (script : List LAct) (cap : Nat) (ops : List Op) (s : W)
+    (hr : run (W.init rt cfg script cap) ops = some s) :
+    (s.terminated = true → s.listening = false ∧ ∀ k, step s (.connect k) = none) ∧
+    s.g.acceptsAfterTerm = 0 ∧
+    (s.g.shutdownPuts = 1 → s.conns = [] ∧ s.listening = false) := by
+  obtain ⟨hR, _⟩ := reach_run rt cfg script cap ops s hr
+  have hl : s.terminated = true → s.listening = false := by
+    intro ht
+    by_cases hl : s.listening = true
+    · have := (hR.P.listen hl).2; simp [ht] at this
+    · simpa using hl
+  refine ⟨fun ht => ⟨hl ht, fun k => by simp [step, hl ht]⟩, hR.O.o2.1, ?_⟩
+  intro h1
+  have h := shutdown_once_after_drain rt cfg script cap ops s hr
+  exact ⟨(h.2 h1).1, hl (h.2 h1).2.1⟩
+
+/-- the order matters: a trigger with a request in flight, then a client - refused; the put happens only after the request
+    in flight has been delivered, with no handler alive -/
+example : (run (W.init .asyncio cfg0 [.recv, .sendStartupComplete, .recv] 10)
+    [.app, .srv, .app, .srv, .connect .h1, .request 0 (some 5), .trigger, .srv]).map
+    (fun s => decide (s.terminated = true ∧ s.listening = false ∧ step s (.connect .h1) = none ∧ s.g.shutdownPuts = 0 ∧ s.conns.length = 1))
+    = some true := by decide
+
 /-- **every abnormal end of `worker_serve` is attributable** (see `ErrJustified`): a lifespan failure only if the
     application sent `lifespan.<stage>.failed`, a time-out only if the event was not set, `ClosedResourceError` only on
     runtimes that close the channels behind a leaving application, `CancelledError` only when the application was still
